@@ -216,7 +216,8 @@ def line(dur, begin=0., end=1., finish=False):
     Second and hertz constants from samples/second rate.
 
   """
-  m = (end - begin) / (dur - (1. if finish else 0.))
+  den = dur - (1. if finish else 0.)
+  m = (end - begin) / den if den else 0. # No slope when there's 0 or 1 sample
   for sample in xrange(int(dur + .5)):
     yield begin + sample * m
 
